@@ -9,6 +9,51 @@ import vcommon, seq
 
 RUNTIME_SYMS = ("dora_aot_", "dora_native_")
 
+COLLISION_PAIRS = """
+class Bx { v: Int64 }
+trait Source[T] { fn get(): T; }
+impl Source[Int64] for Bx { fn get(): Int64 { self.v } }
+impl Source[String] for Bx { fn get(): String { "s${self.v}" } }
+trait Named { fn name(): String { "default" } fn tag(): Int64; }
+class A1
+class A2
+impl Named for A1 { fn tag(): Int64 { 1 } }
+impl Named for A2 { fn tag(): Int64 { 2 } }
+mod ma { pub fn f(): Int64 { 10 } pub mod inner { pub fn f(): Int64 { 11 } } }
+mod mb { pub fn f(): Int64 { 20 } }
+fn f(): Int64 { 30 }
+fn gen[T](x: T): T { x }
+class G[T] { x: T }
+impl[T] G[T] { fn me(): T { self.x } static fn make(x: T): G[T] { G[T](x = x) } }
+trait Ext { fn twice(): Int64; }
+impl Ext for Int64 { fn twice(): Int64 { self * 2 } }
+impl Ext for Int32 { fn twice(): Int64 { self.to_int64() * 3 } }
+impl Ext for G[Int64] { fn twice(): Int64 { self.x * 4 } }
+impl Ext for G[Int32] { fn twice(): Int64 { self.x.to_int64() * 5 } }
+fn very_long_function_name_used_to_reach_the_symbol_length_limit_of_the_object_format_aaaaaaaaaaaaaaaaaaaaaaaaaaaaaaaaaaaaaaaaaaaaaaaaaaaaaaaaaa[A, B](a: A, b: B): B { b }
+fn main() {
+  let b = Bx(v = 7);
+  let s1 = b as Source[Int64];
+  let s2 = b as Source[String];
+  println("${s1.get()} ${s2.get()}");
+  let n1 = A1() as Named; let n2 = A2() as Named;
+  println("${n1.name()}${n1.tag()} ${n2.name()}${n2.tag()} ${A1().name()} ${A2().name()}");
+  println("${ma::f()} ${ma::inner::f()} ${mb::f()} ${f()}");
+  println("${gen[Int64](1)} ${gen[Int32](2i32)} ${gen[(Int64, Int64)]((3, 4)).1} ${gen[(Int64, Int32)]((5, 6i32)).1} ${gen[String]("x")}");
+  println("${G[Int64]::make(1).me()} ${G[Int32]::make(2i32).me()} ${G[String]::make("g").me()}");
+  println("${1.twice()} ${1i32.twice()} ${G[Int64](x = 1).twice()} ${G[Int32](x = 1i32).twice()}");
+  let l1 = |x: Int64|: Int64 { x + 1 }; let l2 = |x: Int64|: Int64 { x + 2 };
+  println("${l1(0)} ${l2(0)}");
+  // over-long names that share the first ~170 and the last ~70 characters of their symbol and differ in the middle
+  let t6 = (1, 2, 3, 4, 5, 6);
+  let w1 = very_long_function_name_used_to_reach_the_symbol_length_limit_of_the_object_format_aaaaaaaaaaaaaaaaaaaaaaaaaaaaaaaaaaaaaaaaaaaaaaaaaaaaaaaaaa[Int32, (Int64, Int64, Int64, Int64, Int64, Int64)](1i32, t6);
+  let w2 = very_long_function_name_used_to_reach_the_symbol_length_limit_of_the_object_format_aaaaaaaaaaaaaaaaaaaaaaaaaaaaaaaaaaaaaaaaaaaaaaaaaaaaaaaaaa[Int64, (Int64, Int64, Int64, Int64, Int64, Int64)](1, t6);
+  let w3 = very_long_function_name_used_to_reach_the_symbol_length_limit_of_the_object_format_aaaaaaaaaaaaaaaaaaaaaaaaaaaaaaaaaaaaaaaaaaaaaaaaaaaaaaaaaa[UInt8, (Int64, Int64, Int64, Int64, Int64, Int64)](1u8, t6);
+  println("${w1.0 + w2.1 + w3.2}");
+}
+"""
+COLLISION_PAIRS_OUT = "7 s7\ndefault1 default2 default default\n10 11 20 30\n1 2 4 6 x\n1 2 g\n2 3 4 5\n1 2\n6\n"
+
 
 def program_level(c, bindir, scratch, tier):
     """Compile programs with -S and check the global labels of each .s."""
@@ -31,7 +76,13 @@ fn main() {
 }
 """,
         "hello": 'fn main() { println("hi"); }\n',
+        # pairs of callables that differ in exactly ONE name component each: trait type argument of an impl and of a
+        # trait-object thunk (one class, two instantiations of a generic trait), impl target of a trait default method,
+        # module path, type argument of a generic function / generic class method / static method, impl target of an
+        # extension-like trait impl, position of a lambda.  Every callable returns a different value.
+        "pairs": COLLISION_PAIRS,
     }
+    expected_out = {"pairs": COLLISION_PAIRS_OUT}
     files = 0
     labels_total = 0
     for name, src in progs.items():
@@ -43,6 +94,20 @@ fn main() {
                                stdout=subprocess.PIPE, stderr=subprocess.PIPE, timeout=300)
             if r.returncode != 0:
                 raise vcommon.MachineryError("compile -S failed for %s: %s" % (name, r.stderr.decode()[-2000:]))
+            if name in expected_out:
+                # the same program assembled, linked and run: every callable must be the one that was named
+                exe = out + "-exe"
+                r2 = subprocess.run([os.path.join(bindir, "dora"), "compile", p, "-o", exe] + backend,
+                                    stdout=subprocess.PIPE, stderr=subprocess.PIPE, timeout=600)
+                be = "cannon" if backend else "boots"
+                if r2.returncode != 0:
+                    c.violation("c19:assembler-or-linker-rejects:%s" % be, "the tool chain rejects the symbols of %s [%s]: %s" % (
+                        name, be, r2.stderr.decode("utf-8", "replace")[-400:]), {"program": src, "backend": be, "stderr": r2.stderr.decode("utf-8", "replace")[-3000:]})
+                else:
+                    r3 = subprocess.run([exe], stdout=subprocess.PIPE, stderr=subprocess.PIPE, timeout=120)
+                    if r3.returncode != 0 or r3.stdout.decode("utf-8", "replace") != expected_out[name]:
+                        c.violation("c19:wrong-callable-bound:%s" % be, "%s [%s] prints %r (exit %d) instead of %r" % (
+                            name, be, r3.stdout.decode("utf-8", "replace"), r3.returncode, expected_out[name]), {"program": src, "backend": be})
             s = open(out + ".s").read()
             files += 1
             globl = re.findall(r"^\s*\.globl\s+(\S+)", s, re.M)
